@@ -24,7 +24,15 @@ def main():
         mod.main(ctx)
     except SystemExit:
         raise
-    except Exception:
+    except Exception as ex:
+        tb = traceback.extract_tb(ex.__traceback__)
+        inner = tb[-1].filename if tb else ""
+        if any(f.filename.startswith(core.REPO + os.sep) for f in tb):
+            # an exception escaped from the implementation where the harness expected none: that is an
+            # observable change of behaviour, reported as a violation (last-resort net; oracles catch what they expect)
+            ctx.violation("unexpected-exception:" + type(ex).__name__, f"implementation raised {type(ex).__name__}: {ex}",
+                          {"traceback": traceback.format_exc()[-3000:]})
+            core.finish(ctx, ["(check aborted by an exception escaping from the implementation)"], "aborted run")
         traceback.print_exc()
         print(f"INFRA: {prop} check crashed", file=sys.stderr)
         sys.exit(2)
